@@ -81,6 +81,12 @@ func (conn *tncConn) Write(p []byte) (int, error) {
 		return 0, nil // Nothing to send (a data frame's byte count is 0001-FFFF)
 	}
 
+	select {
+	case <-conn.eofChan:
+		return 0, io.EOF // The connection is gone (dataOut and ctrlIn are closed with it)
+	default:
+	}
+
 	// TODO: Consider implementing chunking
 	if len(p) > 65535 { // uint16 (length bytes) max
 		p = p[:65535]
@@ -116,7 +122,11 @@ L:
 			return 0, fmt.Errorf("CRC failure")
 		}
 
-		conn.dataOut <- buf.Bytes()
+		select {
+		case conn.dataOut <- buf.Bytes():
+		case <-conn.eofChan:
+			return 0, io.EOF // Nobody receives from dataOut after the TNC connection is lost
+		}
 		conn.mu.Lock()
 		conn.nWritten += n
 		conn.mu.Unlock()
